@@ -334,6 +334,9 @@ func randomHistory(rng *rand.Rand, length int) (map[string]qTag, []qEvent) {
 				f.Size += 3
 				b := int64(rng.Intn(3))
 				m := b + 1 + int64(rng.Intn(2))
+				if f.Size < m+2 {
+					f.Size = m + 2 // the second missing range is never empty (recover() builds the complement of what is held)
+				}
 				f.Left = [][]int64{{b, m}, {m + 1, f.Size}}
 				f.RPrev = pool[g][rng.Intn(len(pool[g]))].name
 			}
